@@ -135,6 +135,8 @@ impl Gen {
                 5 => Sig::Empty,
                 _ => Sig::OtherUser(self.rng.below(self.n_users as u64) as u32),
             }
+        } else if self.rng.chance(1, 10) {
+            Sig::GoodUpper
         } else {
             Sig::Good
         }
